@@ -38,19 +38,33 @@ def atoi (s : List Char) : Option Int :=
 /-! ### memory backend: offset tokens -/
 
 inductive OffRes (α : Type) where
-  /-- `matches[from:]` with a negative `from`: slice bounds out of range -/
+  /-- `matches[from:]` with a negative `from`: slice bounds out of range (only before commit badbaa3) -/
   | panic
+  /-- `storage.ErrInvalidContinuationToken` -/
+  | invalidToken
   | page (items : List α) (next : Option Int)
 deriving Repr
 
-/-- The tail of `MemoryBackend.read`:
+/-- The tail of `MemoryBackend.read` (since commit badbaa3):
 ```
-if from <= len(matches) { matches = matches[from:] }
+if from < 0 || from > len(matches) { return nil, storage.ErrInvalidContinuationToken }
+matches = matches[from:]
 to := PageSize
 if to != 0 && to < len(matches) { return matches[:to], strconv.Itoa(from + to) }
 return matches, ""
 ``` -/
 def memReadPage {α : Type} (items : List α) (ps : Nat) (frm : Int) : OffRes α :=
+  if frm < 0 ∨ frm > (items.length : Int) then .invalidToken
+  else
+    let m := items.drop frm.toNat
+    if ps ≠ 0 ∧ ps < m.length then .page (m.take ps) (some (frm + ps)) else .page m none
+
+/-- The same tail BEFORE commit badbaa3 (finding F22), kept as documentation:
+```
+if from <= len(matches) { matches = matches[from:] }
+```
+a negative `from` panics, a `from` beyond the end leaves `matches` untouched (the first page is answered again). -/
+def memReadPageBeforeFix {α : Type} (items : List α) (ps : Nat) (frm : Int) : OffRes α :=
   if frm < 0 then .panic
   else
     let m := if frm.toNat ≤ items.length then items.drop frm.toNat else items
@@ -72,6 +86,7 @@ def followMemRead {α : Type} (items : List α) (ps : Nat) : Nat → Nat → Opt
   | fuel + 1, k =>
     match memReadPage items ps (k : Int) with
     | .panic => none
+    | .invalidToken => none
     | .page xs none => some [xs]
     | .page xs (some n) => if n < 0 then none else (followMemRead items ps fuel n.toNat).map (xs :: ·)
 
